@@ -175,18 +175,25 @@ CHECKS["C06"] = dict(
           "retained items (same key / same position and value) and outside nodes keep their DOM node."),
     note=DTB + " The link from Keyed / Indexed (get_nodes_between + end marker) to the routine's arguments is covered by part 2, not by a theorem.", design="5.C06")
 CHECKS["C05"] = dict(
-    category="other",
-    technique="differential check of the real client back end on an in-process DOM: in-place updates vs a fresh render by the same code, plus an identity oracle; no theorem yet",
-    text=("Random view trees (depth <= 4, arbitrary nesting of dynamic text / views, Show, Keyed / Indexed, components, NoSsr / NoHydrate, dynamic attributes) are rendered by the REAL DomNode / HydrateNode code compiled natively "
-          "against the DOM shims; after the initial render and after each of 1-6 signal writes the DOM under the mount point must equal a fresh render of the current state made by the same code in a second root, nodes outside "
-          "the changed dynamic regions must keep their identity (python reference structure aligned with the dumped DOM), no console warnings, no panics. Genuine defect found and recorded as known finding F9. Level `other`: no Coq theorem."),
-    note=DTB, design="5.C05")
+    technique="Coq proof (faithfulness invariant of the in-place updater, identity freshness and stability; all views, states and write sequences) on an instance-tree model of the client back end + correspondence of the model with the real DomNode code on an in-process DOM (structure and surviving nodes after every write) + self-differential oracle",
+    text=("Dom/Client.v models the client back end over the shared view vocabulary as an instance tree with node identities: create (fresh render), update (what one signal write does in place: dynamic text / attributes "
+          "patched, a dynamic view re-rendered between its markers only when its own input was written, Show inserting / removing its children, Keyed reusing nodes by key, Indexed by position and value), dom_of. PROVED for EVERY "
+          "view, state and sequence of writes (axiom-free): after every write the DOM without identities equals a fresh render of the current state (C05_fresh_render_every_step, via the invariant C05_update_faithful, which "
+          "includes the content of hidden Show and of list items); ids are fresh, pairwise distinct and stay so (C05_update_ids, C05_run_dom_nodup; unique keys needed for Keyed, shown necessary); a write that no dynamic view / "
+          "Show / list reads -- in particular every string write -- changes no identity at all (C05_nonstructural_write), and for a structural write every node outside the re-rendered dynamic views, toggled Shows and "
+          "non-retained list items is the same node (C05_stable_nodes_survive). The model is compared with the REAL client code (compiled natively against the DOM shims) on 984 (quick) / 8341 (thorough) scenarios: node "
+          "structure after every write and which nodes survive it; the real code is also compared with itself (in-place update vs fresh render in a second root) with an identity oracle. The model is the intended semantics: "
+          "views on which the real code departs from it are exactly known findings F9 and F15 (snapshot semantics of Show / list items), excluded from the correspondence by their structural matchers."),
+    note=DTB + " The tie between Dom/Client.v and dom_node.rs / components.rs / iter.rs is the correspondence, not a translator.", design="5.C05")
 CHECKS["C09"] = dict(
-    category="other",
-    technique="end-to-end differential check: real SSR output -> parsed into the in-process DOM -> real hydration code; identity of adopted elements, visible tree, later updates vs fresh client render; no theorem yet",
-    text=("For ~500 (quick) / ~6000 (thorough) random views plus hand-picked soft spots, the server string produced by the real native SSR build is parsed into the in-process DOM and hydrated by the real HydrateNode code; checked: "
-          "no panic, every server element adopted exactly once in place (ids before = ids after, all and only keyed elements stamped), visible tree unchanged, and after 0-4 signal writes the visible tree equals a fresh client render. "
-          "Genuine defects found and recorded as known findings F9-F13 (lists, Show(false), Show with text children). Level `other`: no Coq theorem."),
+    technique="Coq proof relating the server build model and the client model (same visible tree, same elements in hydration-key order, same behaviour under writes; all views and states) + end-to-end differential check: real SSR output -> in-process DOM -> real hydration code; identity of adopted elements, visible tree, later updates vs fresh client render and vs the client model",
+    text=("PROVED on Ssr/View.v and Dom/Client.v for every view without NoSsr and every state (Dom/ServerClient.v, axiom-free): the server output and a client render show the same visible tree (C09_visible_tree: hydration "
+          "has nothing to change); the elements carrying a hydration key on the server are, in key order, exactly the elements the client creates outside NoHydrate, and the final key counter is their number, so every "
+          "stamped element is requested exactly once (C09_keys, for adoptable views: no element under a Show that is off = known finding F10, shown by counterexample); after any sequence of writes the client view shows what "
+          "the server would render for the new state (C09_updates_agree, from C05's theorem). PARTIAL: the adoption mechanism itself (marker search, text splicing in hydrate_node.rs) has no Gallina model; it is decided by the "
+          "end-to-end check: for ~500 (quick) / ~6000 (thorough) random views plus hand-picked soft spots the server string produced by the real native SSR build is parsed into the in-process DOM and hydrated by the real "
+          "HydrateNode code; checked: no panic, every server element adopted exactly once in place (ids before = ids after, all and only keyed elements stamped), visible tree unchanged, after 0-4 writes the visible tree "
+          "equals a fresh client render and follows Dom/Client.v. Genuine defects found and recorded as known findings F9-F13, F15, F16."),
     note=DTB, design="5.C09")
 
 NOT_YET = {}
